@@ -399,6 +399,12 @@ def run(ctx):
                            gen_db.gff_line("chrOLD", "exon", 500, 1000, "+", [("Parent", ["oldtx"])])]
             case["input"] = [gen_db.gff_line("chrNEW", "gene", 10, 90, "-", [("ID", ["newgene"])]),
                              gen_db.gff_line("chrNEW", "CDS", 10, 90, "-", [("Parent", ["newgene"])])]
+        if i % 6 == 2:
+            # the new input has NO feature line (empty / comments and directives only): without force the call still has
+            # to raise and to leave the existing database alone
+            case["input"] = [[], ["##gff-version 3", "# nothing here"], ["", "#c"]][(i // 6) % 3]
+            case["feature_form"] = None
+            case["also_failing_import"] = False
         if i == 0:
             # the shape of the seeded demos: old input all auto-numbered, new input two exons without ID
             case["old"] = ["##gff-version 3"] + [gen_db.gff_line("chr1", t, 100 + 10 * k, 200 + 10 * k, "+", [("Name", ["o%d" % k])])
